@@ -31,8 +31,9 @@ var (
 	tNote    = reflect.TypeOf(of.NXActionNote{})
 	tEth     = reflect.TypeOf(protocol.Ethernet{})
 	tVLAN    = reflect.TypeOf(protocol.VLAN{})
+	tOption  = reflect.TypeOf(protocol.Option{})
 	obsNorms = "nil==empty slice; net.IP in 16-byte form; MatchField.Value/Mask compared by their encoding; NXActionNote.Note right-padded with zeros to the action's 8-byte boundary; " +
-		"an Ethernet VLAN with VID 0 is 'untagged' (TPID/PCP/DEI ignored); Bucket.Length (derived, stamped on a copy at encode time) and NXActionResubmit.TableID (no wire representation) skipped; " +
+		"an Ethernet VLAN with VID 0 is 'untagged' (TPID/PCP/DEI ignored); an IPv6 Option's Data is compared zero-filled to its Length; Bucket.Length (derived, stamped on a copy at encode time) and NXActionResubmit.TableID (no wire representation) skipped; " +
 		"a flow-mod/group-mod delete denotes a message without instructions/buckets"
 )
 
@@ -82,6 +83,11 @@ func obsDumpMsg(v any) string {
 			if rv.FieldByName("VID").Uint() == 0 {
 				return "VLAN{untagged}", true
 			}
+		case tOption:
+			// an option whose Data is shorter than Length (PadN written without data) denotes zero fill
+			d := make([]byte, rv.FieldByName("Length").Uint())
+			copy(d, rv.FieldByName("Data").Bytes())
+			return fmt.Sprintf("Option{Type:%d Length:%d Data:%x}", rv.FieldByName("Type").Uint(), len(d), d), true
 		case tNote:
 			note := rv.FieldByName("Note").Bytes()
 			n := (10+len(note)+7)/8*8 - 10
